@@ -538,7 +538,9 @@ Inductive aval :=
 | AFlt (bits : N)
 | AStruct
 | ATxt (cands : list (list N))    (* end-to-end runs: the renderings of the C-level value, stated by the driver *)
-| AScr (ints : list Z) (strs : list (list N)).  (* end-to-end runs, scripts: the integers / strings that denote the value *)
+| AScr (ints : list Z) (strs : list (list N)) (flts : list (N * N))
+                                  (* end-to-end runs, scripts: the integers / strings / floats (size, bits) that denote the value *)
+| AAnyInt.                        (* end-to-end runs, scripts: an address the driver cannot know *)
 
 Definition trunc_str (s : list N) : list N :=
   if lenN s <=? ARG_STR_MAX then s else takeN (ARG_STR_MAX - 3) s ++ [46; 46; 46].
@@ -566,7 +568,8 @@ Definition accept (s : spec) (a : aval) : list (list N) :=
   | AFlt _ => []                  (* judged through `dump` (bits), not through the text *)
   | AStruct => [s_name s ++ [123; 46; 46; 46; 125]; s_name s ++ [123; 125]; [123; 46; 46; 46; 125]; [123; 125]]
   | ATxt cands => cands
-  | AScr _ _ => []
+  | AScr _ _ _ => []
+  | AAnyInt => []
   end.
 
 (* bytes the value needs in the payload (independent restatement of the format) *)
@@ -798,13 +801,14 @@ Definition ok_sitem (l : lang) (s : spec) (a : aval) (o : oitem) : bool :=
   | ABad p => str_ok (bad_ptr_text p)
   | AFlt bits' => match o with OFlt sz b => (sz =? s_size s) && (b =? bits' mod 2 ^ bits) | _ => false end
   | AStruct => str_ok (struct_text (s_name s))
-  | AScr ints strs =>
+  | AScr ints strs flts =>
       match o with
       | OInt z => existsb (fun c => oitem_eqb l (OInt c) o) ints
       | OStr x => existsb (list_eqb x) strs
-      | OFlt _ _ => false
+      | OFlt sz b => existsb (fun p => (fst p =? sz) && (snd p =? b)) flts
       | _ => false
       end
+  | AAnyInt => match o with OInt _ => true | _ => false end
   | _ => false
   end.
 Fixpoint ok_sitems (l : lang) (vals : list (spec * aval)) (os : list oitem) : bool :=
